@@ -414,3 +414,63 @@ MM("view-zip-name-keys-with-record-values", "C02.R3", [(F, V_RAW, (
     '            names = list(self.settings)\n'
     '            self._raw_settings = MappingProxyType(dict(zip(names, [s.value for s in self.settings_tuple])))\n'
     '        return self._raw_settings\n'))])
+
+# ---- fourth batch: the end-of-settings test (R5 "a zero index alone ends the settings": scenario walk of one iteration of the
+# parse loop under "the record at the cursor has index 0"); parse-first shapes, wider look-aheads, entangled / membership tests
+PARSE_FIRST = (
+    '    while True:\n'
+    '        try:\n'
+    '            setting = Setting(fobj)\n'
+    '        except EOFError:\n'
+    '            break\n'
+)
+
+
+def _parse_first(test):
+    return [(F, PEEK + PARSE, PARSE_FIRST + f'        if {test}:\n            # end of beacon config\n            break\n')]
+
+
+PEEK4 = (
+    '    while True:\n'
+    '        peek = fobj.read(4)[:4]\n'
+    '        if peek == b"\\x00\\x00\\x00\\x00":\n'
+    '            # end of beacon config\n'
+    '            break\n'
+)
+TT("twin-parse-first-index-test", _parse_first("setting.index == 0"))
+TT("twin-parse-first-falsy-index", _parse_first("not setting.index"))
+TT("twin-parse-first-index-value-local", [(F, PEEK + PARSE, PARSE_FIRST + '        number = setting.index.value\n        if number < 1:\n            break\n')])
+TT("twin-parse-first-index-membership", _parse_first("setting.index in (0,)"))
+TT("twin-peek-short-or-terminator", [(F, '        if peek == b"\\x00\\x00":\n', '        if len(peek) < 2 or peek == b"\\x00\\x00":\n')])
+TT("twin-peek-membership", [(F, '        if peek == b"\\x00\\x00":\n', '        if peek in (b"\\x00\\x00",):\n')])
+TT("twin-peek-eof-test-first", [(F, '        if peek == b"\\x00\\x00":\n', '        if not peek:\n            break\n        if peek == b"\\x00\\x00":\n')])
+TT("twin-peek4-index-bytes-only", [(F, PEEK, PEEK4.replace('peek == b"\\x00\\x00\\x00\\x00"', 'peek[:2] == b"\\x00\\x00"')),
+                                   (F, '            fobj.seek(-2, io.SEEK_CUR)\n', '            fobj.seek(-4, io.SEEK_CUR)\n')])
+MM("parse-first-zero-index-and-length", "C02.R5", _parse_first("setting.index == 0 and setting.length == 0"))
+MM("parse-first-index-or-type-falsy", "C02.R5", _parse_first("not (setting.index or setting.type)"))
+MM("parse-first-zero-index-empty-value", "C02.R5", _parse_first("setting.index == 0 and not setting.value"))
+MM("parse-first-struct-truth-value", "C02.R5", _parse_first("not bool(setting)"))
+MM("peek-index-and-type-bytes", "C02.R5", [(F, PEEK, PEEK4), (F, '            fobj.seek(-2, io.SEEK_CUR)\n', '            fobj.seek(-4, io.SEEK_CUR)\n')])
+MM("cond-while-peek-index-and-type-bytes", "C02.R5", [(F, PEEK, '    while fobj.read(4)[:4] != b"\\x00\\x00\\x00\\x00":\n'), (F, '            fobj.seek(-2, io.SEEK_CUR)\n', '            fobj.seek(-4, io.SEEK_CUR)\n')])
+MM("terminator-is-index-one", "C02.R5", _parse_first("setting.index == 1"))
+# the index read as an integer before the parse; a flag-controlled loop whose test is evaluated again after the terminator
+INDEX_INT = '    while True:\n        number = u16be(fobj.read(2))\n        if number == 0:\n            # end of beacon config\n            break\n'
+FLAG_LOOP = (
+    '    done = False\n'
+    '    while not done:\n'
+    '        peek = fobj.read(2)[:2]\n'
+    '        if peek == b"\\x00\\x00":\n'
+    '            # end of beacon config\n'
+    '            done = True\n'
+    '            continue\n'
+)
+TT("twin-index-read-as-integer", [(F, PEEK, INDEX_INT)])
+TT("twin-index-from-bytes", [(F, '        if peek == b"\\x00\\x00":\n', '        if int.from_bytes(peek, "big") == 0 and len(peek) == 2:\n')])
+TT("twin-flag-controlled-loop", [(F, PEEK, FLAG_LOOP)])
+MM("flag-controlled-loop-flag-not-set", "C02.R5", [(F, PEEK, FLAG_LOOP.replace("done = True", "done = False"))])
+MM("index-and-type-as-one-integer", "C02.R5", [(F, PEEK, '    while True:\n        head = fobj.read(4)\n        if u32be(head) == 0:\n            break\n'),
+                                                (F, '            fobj.seek(-2, io.SEEK_CUR)\n', '            fobj.seek(-4, io.SEEK_CUR)\n')])
+MM("index-integer-and-nothing-left", "C02.R5", [
+    (F, PEEK, INDEX_INT.replace("        number = ", "        start = fobj.tell()\n        number = ").replace("if number == 0:", "if number == 0 and not fobj.read(1):")),
+    (F, '            fobj.seek(-2, io.SEEK_CUR)\n', '            fobj.seek(start)\n'),
+])
